@@ -399,6 +399,31 @@ func replayVfk(line []byte, a *Acc) {
 	if after := tagged.CanonGo(mv); after != before {
 		a.Mis("vfk:receiver-modified", "key search modified its receiver: "+short(before)+" -> "+short(after), l)
 	}
+	// the same document with equal sub-documents held as ONE object: the same values and the same paths for every key
+	if shared, ok := tagged.InternGo(map[string]interface{}(mv)).(map[string]interface{}); ok && tagged.SharedContainer(shared) != "" {
+		mxj.SetFieldSeparator()
+		sv := mxj.Map(shared)
+		for _, c := range l.Ks {
+			if len(c.Conds) > 0 {
+				continue
+			}
+			var g1, g2 []interface{}
+			var p1, p2 []string
+			if pn := guard(func() {
+				g1, _ = mv.ValuesForKey(c.Key)
+				g2, _ = sv.ValuesForKey(c.Key)
+				p1 = mv.PathsForKey(c.Key)
+				p2 = sv.PathsForKey(c.Key)
+			}); pn != "" {
+				continue
+			}
+			c1, c2 := tagged.CanonList(g1), tagged.CanonList(g2)
+			if !tagged.SameBag(c1, c2) || !tagged.SameBag(p1, p2) {
+				a.Mis("vfk:shared-subdocuments", fmt.Sprintf("ValuesForKey / PathsForKey(%q) on %s give %s / %v; with equal sub-documents held as one object %s / %v", c.Key, short(before), short(strings.Join(c1, " ")), p1, short(strings.Join(c2, " ")), p2), vfkLine{F: "vfk", M: l.M, Ks: []vfkCase{c}})
+				break
+			}
+		}
+	}
 	a.Count(2*len(l.Ks)+len(l.Pf)+2*len(l.Vp), nontriv)
 	if nontriv > 20 {
 		for _, c := range l.Ks {
